@@ -1,5 +1,5 @@
-(* C11 -- IPv4/IPv6 objects agree with the standard library.  Numeric layer: the derived integer values of IPv4Obj / IPv6Obj (network = addr AND netmask, netmask/hostmask complement, broadcast/last = network + hostmask, bounds, numhosts); gen_* are regenerated from /repo on every run.  Textual layer, IPv4: v4_parse (Model/IPText.v) mirrors the constructor's regex alternatives and ipaddress's validation; every accepted spelling (render4 f a p with any surrounding blanks) parses to (a, p), and whatever parses is in range.  Textual layer, IPv6: v6_parse (Model/IPText6.v) transcribes ipaddress's IPv6 parser and IPv6Obj's input handling; whatever parses is in range (v6_parse_sound), and every uncompressed eight-group text in any hextet spelling (lower/upper case minimal, zero padded: spellings), with or without /len and surrounding blanks, parses to (value_of groups, len) (v6_parse_full); every compressed text hi::lo, either side possibly empty, at most seven groups (v6_parse_compressed) denotes hi ++ zeros ++ lo; a dotted-quad tail after six groups or after hi::lo with at most five groups (v6_parse_embedded_full / _compressed) contributes the low 32 bits (value_of_embedded); 'addr<blanks>len' reads exactly as 'addr/len' (v6_parse_blank_form).  Rejection side: an accepted address text consists of hexadecimal digits, ':' and '.' only, so one foreign character anywhere makes the parse fail (v6_addr_alphabet, v6_addr_rejects_foreign).  Never truncated: whatever v4_parse / v6_parse accept decomposes completely into an address text accepted as a whole plus nothing, a separator and a whole mask or length (v4_parse_shape with dotted_whole, v6_parse_shape) -- no unread remainder.  Renderings: the IPv6 renderer of Model/IPRender6.v (eight minimal lower-case groups, leftmost longest run of >= 2 zero groups as '::'; tied to str(ip) / as_cidr_addr / as_cidr_net / netmask / hostmask by the render6 stream) re-parses to the same value for every 128-bit value (render6_parses, render6_cidr_parses).  These four shapes are all the spellings ipaddress accepts (scope ids are refused by IPv6Obj); rejection of everything else and the string renderings are decided by the v6text correspondence stream and the differential tie against Python's ipaddress (design/C11.md). *)
-From Coq Require Import ZArith List NArith. Require Import CCP.Lib.Res CCP.Lib.PyStr CCP.Model.IPRef CCP.Model.IPText CCP.Model.IPText6 CCP.gen.GenIP CCP.Proofs.C11Proofs CCP.Proofs.IPTextProofs CCP.Proofs.IPText6Proofs CCP.Proofs.IPText6Compressed CCP.Proofs.IPText6Embedded CCP.Proofs.IPText6Blank CCP.Proofs.IPText6Alphabet CCP.Proofs.IPTextShape CCP.Proofs.IPText6Shape CCP.Model.IPRender6 CCP.Proofs.IPRender6Proofs. Import ListNotations. Open Scope Z_scope.
+(* C11 -- IPv4/IPv6 objects agree with the standard library.  Numeric layer: the derived integer values of IPv4Obj / IPv6Obj (network = addr AND netmask, netmask/hostmask complement, broadcast/last = network + hostmask, bounds, numhosts); gen_* are regenerated from /repo on every run.  Textual layer, IPv4: v4_parse (Model/IPText.v) mirrors the constructor's regex alternatives and ipaddress's validation; every accepted spelling (render4 f a p with any surrounding blanks) parses to (a, p), and whatever parses is in range.  Textual layer, IPv6: v6_parse (Model/IPText6.v) transcribes ipaddress's IPv6 parser and IPv6Obj's input handling; whatever parses is in range (v6_parse_sound), and every uncompressed eight-group text in any hextet spelling (lower/upper case minimal, zero padded: spellings), with or without /len and surrounding blanks, parses to (value_of groups, len) (v6_parse_full); every compressed text hi::lo, either side possibly empty, at most seven groups (v6_parse_compressed) denotes hi ++ zeros ++ lo; a dotted-quad tail after six groups or after hi::lo with at most five groups (v6_parse_embedded_full / _compressed) contributes the low 32 bits (value_of_embedded); 'addr<blanks>len' reads exactly as 'addr/len' (v6_parse_blank_form).  Rejection side: an accepted address text consists of hexadecimal digits, ':' and '.' only, so one foreign character anywhere makes the parse fail (v6_addr_alphabet, v6_addr_rejects_foreign).  Never truncated: whatever v4_parse / v6_parse accept decomposes completely into an address text accepted as a whole plus nothing, a separator and a whole mask or length (v4_parse_shape with dotted_whole, v6_parse_shape) -- no unread remainder.  Renderings: the IPv6 renderer of Model/IPRender6.v (eight minimal lower-case groups, leftmost longest run of >= 2 zero groups as '::'; tied to str(ip) / as_cidr_addr / as_cidr_net / netmask / hostmask by the render6 stream) re-parses to the same value for every 128-bit value (render6_parses, render6_cidr_parses).  Exactness of the group logic: v6_groups accepts exactly eight groups or hi '::' lo with at most seven groups (v6_groups_iff), and an accepted address text is the ':'-join of parts that classify to such fields (v6_addr_complete).  These four shapes are all the spellings ipaddress accepts (scope ids are refused by IPv6Obj); rejection of everything else and the string renderings are decided by the v6text correspondence stream and the differential tie against Python's ipaddress (design/C11.md). *)
+From Coq Require Import ZArith List NArith. Require Import CCP.Lib.Res CCP.Lib.PyStr CCP.Model.IPRef CCP.Model.IPText CCP.Model.IPText6 CCP.gen.GenIP CCP.Proofs.C11Proofs CCP.Proofs.IPTextProofs CCP.Proofs.IPText6Proofs CCP.Proofs.IPText6Compressed CCP.Proofs.IPText6Embedded CCP.Proofs.IPText6Blank CCP.Proofs.IPText6Alphabet CCP.Proofs.IPTextShape CCP.Proofs.IPText6Shape CCP.Model.IPRender6 CCP.Proofs.IPRender6Proofs CCP.Proofs.IPText6Complete. Import ListNotations. Open Scope Z_scope.
 
 Theorem C11_v6_network_is_and :
   forall o, wf 128 o -> netw 128 o = Z.land (addr o) (netmask 128 o).
@@ -190,3 +190,18 @@ Theorem C11_render6_injective :
   forall a b, (0 <= a < 2 ^ 128)%Z -> (0 <= b < 2 ^ 128)%Z -> render6 a = render6 b -> a = b.
 Proof. exact render6_injective. Qed.
 Print Assumptions C11_render6_injective.
+
+Theorem C11_v6_groups_shapes :
+  forall fs gs, v6_groups fs = Some gs -> (fs = map FHex gs /\ (length gs = 8)%nat) \/ (exists hi lo, fs = cfields hi lo /\ (length hi + length lo <= 7)%nat /\ gs = hi ++ repeat 0%N (8 - (length hi + length lo))%nat ++ lo).
+Proof. exact v6_groups_shapes. Qed.
+Print Assumptions C11_v6_groups_shapes.
+
+Theorem C11_v6_groups_iff :
+  forall fs gs, v6_groups fs = Some gs <-> (fs = map FHex gs /\ (length gs = 8)%nat) \/ (exists hi lo, fs = cfields hi lo /\ (length hi + length lo <= 7)%nat /\ gs = hi ++ repeat 0%N (8 - (length hi + length lo))%nat ++ lo).
+Proof. exact v6_groups_iff. Qed.
+Print Assumptions C11_v6_groups_iff.
+
+Theorem C11_v6_addr_complete :
+  forall a v, v6_addr a = Some v -> exists parts gs, a = join [c_colon] parts /\ (3 <= length parts)%nat /\ v = value_of gs /\ ((Forall (fun p => has_dot p = false) (skipn (length parts - 1)%nat parts) /\ v6_groups (map classify parts) = Some gs) \/ (exists front qt q, parts = front ++ [qt] /\ dotted qt = Some q /\ v6_groups (map classify front ++ [FHex (hi16 q); FHex (lo16 q)]) = Some gs)).
+Proof. exact v6_addr_complete. Qed.
+Print Assumptions C11_v6_addr_complete.
